@@ -5,6 +5,7 @@ cd /verif
 : > seeded/RESULTS.tsv
 for sd in seeded/*/; do
   name=$(basename $sd); id=${name%%-*}
+  alt=$(python3 -c "import json,sys;print(json.load(open(sys.argv[1])).get('check',''))" $sd/meta.json); [ -n "$alt" ] && id=$alt   # a change caught by the check of another property
   out=$(./scripts/seedrun.sh $sd $id $tier 2>&1)
   rc=$(echo "$out" | grep -o 'exit=[0-9]*' | tail -1)
   sig=$(echo "$out" | grep -m1 'signature:' | sed 's/^ *signature: //' | cut -c1-150)
